@@ -1,6 +1,8 @@
 package main
 
 import (
+	"fmt"
+	"os"
 	"strings"
 
 	"golang.org/x/tools/go/ssa"
@@ -67,8 +69,8 @@ func computeHelpers(c *Ctx) {
 	sites := map[*ssa.Function][]*ssa.Call{}
 	other := map[*ssa.Function]int{} // go/defer calls, value uses
 	for _, f := range c.Funcs {
-		if c.IsTestFile(f.Pos()) {
-			continue
+		if c.IsTestFile(f.Pos()) || (f.Synthetic != "" && len(f.TypeArgs()) == 0) {
+			continue // promotion/bound-method wrappers are not real call sites
 		}
 		for _, b := range f.Blocks {
 			for _, in := range b.Instrs {
@@ -96,6 +98,12 @@ func computeHelpers(c *Ctx) {
 		}
 	}
 	for h, ss := range sites {
+		if os.Getenv("F3LINT_DEBUG_HELPER") != "" && strings.Contains(funcName(h), os.Getenv("F3LINT_DEBUG_HELPER")) {
+			fmt.Fprintf(os.Stderr, "helper? %s sites=%d other=%d blocks=%v recover=%v parent=%v synthetic=%q mentioned=%v\n", funcName(h), len(ss), other[h], h.Blocks != nil, h.Recover != nil, h.Parent() != nil, h.Synthetic, mentioned[funcName(h)])
+			for _, c := range ss {
+				fmt.Fprintf(os.Stderr, "   site in %s synthetic=%q\n", c.Parent().String(), c.Parent().Synthetic)
+			}
+		}
 		if len(ss) != 1 || other[h] > 0 || h.Blocks == nil || h.Recover != nil || h.Parent() != nil {
 			continue
 		}
